@@ -317,12 +317,54 @@ def r03_5(run):
     run.count("hard-wired kernel options", n)
 
 
+def r03_7(run):
+    """`where=` may be a Tensor (mygrad.typing.Mask).  A Tensor that reaches a NumPy ufunc as `where` is dispatched back to
+    Tensor.__array_ufunc__ -> unbounded recursion.  Some layer between the public signature and the kernel must unwrap it."""
+    from .util import build_cfg
+    fi = anchor_func(run, "mygrad.tensor_base.Tensor._op")
+    cfg = build_cfg(run, fi)
+
+    def unwraps(fn_node, names):
+        """assignments that replace a Tensor-valued mask by its array, guarded by an isinstance(<mask>, Tensor) test"""
+        out = []
+        for st in own_nodes(fn_node):
+            if not isinstance(st, ast.Assign):
+                continue
+            txt = norm(st.value)
+            if any(f"{n}.data" in txt for n in names) or any(f"asarray({n}" in txt or f"_anything_but_tensor({n}" in txt for n in names):
+                out.append(st)
+        return out
+
+    wnames = ("op_kwargs['where']", 'op_kwargs["where"]', "op_kwargs.get('where')", "where")
+    central = unwraps(fi.node, wnames)
+    fwd = [c for c in own_nodes(fi.node) if isinstance(c, ast.Call) and isinstance(c.func, ast.Name) and any(
+        k.arg is None and norm(k.value) == "op_kwargs" for k in c.keywords)]
+    ok_central = False
+    for u in central:
+        nu = cfg.node_for(u)
+        tests = [n for n, s in cfg.stmt.items() if cfg.label[n] == "If" and "isinstance(" in norm(s) and "Tensor" in norm(s) and "where" in norm(s)]
+        if nu is not None and any(cfg.edge_dominates(t, "true", nu) for t in tests) and fwd and \
+                all(nu in __import__("networkx").ancestors(cfg.g, cfg.stmt_node_containing(c)) for c in fwd if cfg.stmt_node_containing(c) is not None):
+            ok_central = True
+    # alternative: every forward pass that accepts `where` unwraps it itself
+    ops = [c.methods["__call__"] for c in run.project.operation_classes() if "__call__" in c.methods and "where" in c.methods["__call__"].params()]
+    ok_local = bool(ops) and all(unwraps(m.node, ("where",)) for m in ops)
+    run.ob("R03.7", loc(fi, central[0] if central else fi.node), fi.short, "a Tensor-valued where= mask is replaced by its array before any NumPy kernel sees it",
+           ok_central or ok_local,
+           ("Tensor._op unwraps op_kwargs['where'] under an isinstance test, ahead of the forward call" if ok_central else
+            f"each of the {len(ops)} forward passes accepting where= unwraps it") if (ok_central or ok_local) else
+           f"`where` travels raw from the public signature (typed Mask, which admits Tensor) through op_kwargs into {len(ops)} NumPy kernel calls: "
+           f"NumPy dispatches a Tensor mask back to Tensor.__array_ufunc__ and the call recurses until RecursionError")
+    run.count("forward passes accepting where=", len(ops))
+
+
 def check(run):
     run.rule("R03.1", "UnaryUfunc/BinaryUfunc/Sequential.__call__: operands reach the kernel in order; every option reaches it under its own "
              "name unless it holds its not-given sentinel", floor=15)
     run.rule("R03.2", "no dead parameter in any op forward pass or wrapper; one-line wrappers forward every parameter", floor=150)
     run.rule("R03.3", "op forward values have no data/control dependence on TRACK_GRAPH", floor=6)
     run.rule("R03.5", "kernel options hard-wired by an op (order=) equal NumPy's defaults", floor=1)
+    run.rule("R03.7", "a where= mask given as a Tensor is unwrapped before it reaches a NumPy kernel", floor=1)
     run.rule("R03.6", "Tensor.__array_ufunc__ evaluates forwarded (non-differentiable) ufuncs through getattr(ufunc, method), as NumPy would", floor=1)
     run.rule("R03.4", "Tensor._op hands Python scalars to the kernel unconverted; array operands are adopted as is", floor=2)
     r03_1(run)
@@ -330,5 +372,6 @@ def check(run):
     r03_3(run)
     r03_4(run)
     r03_5(run)
+    r03_7(run)
     from .c11 import ufunc_method_dispatch
     ufunc_method_dispatch(run, "R03.6")
